@@ -753,6 +753,131 @@ impl<'a> Gen<'a> {
                "mods": mods})
     }
 
+    /// Layout variants of every sample of tests/samples/invalid (one sample per diagnostic of the catalogue): the same
+    /// text without its final line break (diagnostics at the very END of the input), behind a line of more than 300
+    /// columns that holds multi-byte characters, as ONE line behind multi-byte text on the same line (every diagnostic
+    /// on the first line, at a column beyond 300 for the longer samples), as the second and as the third module of a set,
+    /// and twice in one file (the second copy with every name renamed: two instances of every diagnostic).
+    /// `variant` names the base case and the transformation; the expected places are derived from the diagnostics of
+    /// the base case by the check (checks/c13.py) and decided by TLC (Trace_Diagnostics!Covers).
+    pub fn location_variants(&self) -> Vec<Value> {
+        const KEYWORDS: &[&str] = &[
+            "fn", "var", "const", "if", "goto", "loop", "else", "cast", "as", "import", "pub", "extern", "struct", "word8", "word16",
+            "word32", "word64", "word128", "true", "false", "void", "i8", "i16", "i32", "i64", "i128", "u8", "u16", "u32", "u64",
+            "u128", "usize", "char8", "bool", "return", "_",
+        ];
+        let filler = |k: usize| {
+            format!("pub fn filler{k}(x: i32) -> i32\n{{\n\tprint!(\"filler \", x, \"\\n\");\n\treturn: x + {k}\n}}\nfn shared(x: i32) -> i32\n{{\n\treturn: x\n}}\n")
+        };
+        let mut out = Vec::new();
+        for (i, (rel, text)) in self.corpus.files.iter().enumerate() {
+            if !rel.starts_with("tests/samples/invalid/") || text.contains('\r') {
+                continue;
+            }
+            let base = format!("corpus{i}");
+            let name = Path::new(rel).file_name().map(|f| f.to_string_lossy().to_string()).unwrap_or_else(|| "s.pn".to_string());
+            let has_imports = !imports_of(text).is_empty();
+            let mut add = |tag: &str, mods: Vec<(String, String)>, variant: Value| {
+                let mods: Vec<Value> = mods.into_iter().map(|(n, s)| json!({"name": n, "src": clip(s)})).collect();
+                let mut v = variant;
+                v["of"] = json!(base);
+                v["t"] = json!(tag);
+                out.push(json!({"id": format!("locv{i}-{tag}"), "kind": format!("locv:{tag}"), "wasm": false, "origin": rel,
+                                "mods": mods, "variant": v}));
+            };
+            // 1. no line break at the end
+            let trimmed = text.trim_end().to_string();
+            if trimmed.len() < text.len() {
+                add("nonl", vec![(rel.clone(), trimmed)], json!({"dline": 0, "dchar": 0, "mod": 1}));
+            }
+            // 2. behind a long line with multi-byte characters
+            let pad = format!("// {} caf\u{e9} \u{1f35d} \u{4e2d}\n", "x".repeat(300));
+            add("pad", vec![(rel.clone(), format!("{pad}{text}"))], json!({"dline": 1, "dchar": pad.chars().count(), "mod": 1}));
+            let toks = tokenize(text);
+            let code: Vec<&Tok> = toks.iter().filter(|t| !text[t.start..].starts_with("//")).collect();
+            // 3. one line, behind multi-byte text on the same line
+            if !code.is_empty() {
+                let joined: Vec<&str> = code.iter().map(|t| &text[t.start..t.end]).collect();
+                let one = format!("fn mb_() {{ var s = \"\u{e9}\u{1f35d}\u{4e2d}\"; }} {}\n", joined.join(" "));
+                add("oneline", vec![(rel.clone(), one)], json!({"line": 1, "mod": 1}));
+            }
+            if !has_imports {
+                // 4. as the second / third module of a set (the earlier modules use a builtin: per-module generator state)
+                add("mod2", vec![("filler1.pn".to_string(), filler(1)), (name.clone(), text.clone())], json!({"dline": 0, "dchar": 0, "mod": 2}));
+                add("mod3", vec![("filler1.pn".to_string(), filler(1)), ("sub/filler2.pn".to_string(), filler(2)), (name.clone(), text.clone())],
+                    json!({"dline": 0, "dchar": 0, "mod": 3}));
+                // 5. twice in one file, the second copy with every name renamed
+                let mut first = text.clone();
+                if !first.ends_with('\n') {
+                    first.push('\n');
+                }
+                let mut second = String::new();
+                let mut pos = 0;
+                for t in &toks {
+                    second.push_str(&text[pos..t.start]);
+                    let w = &text[t.start..t.end];
+                    second.push_str(w);
+                    let ident = w.chars().next().map(|c| c.is_ascii_alphabetic() || c == '_').unwrap_or(false)
+                        && w.chars().all(|c| c.is_ascii_alphanumeric() || c == '_')
+                        && !KEYWORDS.contains(&w);
+                    if ident {
+                        second.push_str("_2");
+                    }
+                    pos = t.end;
+                }
+                second.push_str(&text[pos..]);
+                let dline = first.matches('\n').count();
+                let dchar = first.chars().count();
+                add("twice", vec![(rel.clone(), format!("{first}{second}"))], json!({"dline": dline, "dchar": dchar, "mod": 1, "twice": true}));
+            }
+        }
+        out
+    }
+
+    /// The same module named twice on the command line, and inputs whose diagnostics name one of SEVERAL candidates kept
+    /// in hash tables (which variable / label / constant is named must not depend on the process).
+    pub fn repeated_and_ambiguous(&self) -> Vec<Value> {
+        let mut out = Vec::new();
+        let lib = "pub fn lib_f(x: i32) -> i32\n{\n\treturn: x + 1\n}\nfn shared(x: i32) -> i32\n{\n\treturn: x\n}\n".to_string();
+        let user = "import \"lib.pn\";\nfn main() -> i32\n{\n\tprint!(\"v \", lib_f(1), \"\\n\");\n\treturn: lib_f(2)\n}\n".to_string();
+        let private = "fn only_private(x: i32) -> i32\n{\n\treturn: x\n}\n".to_string();
+        let sets: Vec<(&str, Vec<(&str, &String)>)> = vec![
+            ("lib-lib", vec![("lib.pn", &lib), ("lib.pn", &lib)]),
+            ("user-lib-lib", vec![("user.pn", &user), ("lib.pn", &lib), ("lib.pn", &lib)]),
+            ("user-lib-user", vec![("user.pn", &user), ("lib.pn", &lib), ("user.pn", &user)]),
+            ("private-private", vec![("p.pn", &private), ("p.pn", &private)]),
+            ("private-x3", vec![("p.pn", &private), ("p.pn", &private), ("p.pn", &private)]),
+        ];
+        for (tag, mods) in sets {
+            let mods: Vec<Value> = mods.into_iter().map(|(n, s)| json!({"name": n, "src": s})).collect();
+            out.push(json!({"id": format!("dup-{tag}"), "kind": "dup", "wasm": false, "origin": tag, "mods": mods}));
+        }
+        // several variables skipped by several gotos to several labels: E482 names a variable and a label
+        let mut s = String::from("fn main() -> i32\n{\n\tvar r: i32 = 0;\n\tif r == 1\n\t\tgoto first;\n\tif r == 2\n\t\tgoto second;\n\tif r == 3\n\t\tgoto first;\n");
+        for v in ["alpha", "beta", "gamma", "delta", "epsilon"] {
+            s.push_str(&format!("\tvar {v}: i32 = 1;\n"));
+        }
+        s.push_str("\tfirst:\n\tr = alpha + beta;\n\tsecond:\n\tr = r + gamma + delta + epsilon + alpha;\n\treturn: r\n}\n");
+        out.push(single("amb-skipped-variables".to_string(), "amb", "amb.pn", s));
+        // a cycle of five structures: the diagnostic names structures of the cycle
+        let names = ["Aa", "Bb", "Cc", "Dd", "Ee"];
+        for rot in 0..3usize {
+            let mut s = String::new();
+            for k in 0..5usize {
+                let me = names[(k + rot) % 5];
+                let next = names[(k + rot + 1) % 5];
+                s.push_str(&format!("struct {me}\n{{\n\tinner: {next},\n\tn: i32,\n}}\n"));
+            }
+            s.push_str("fn main() -> i32\n{\n\treturn: 0\n}\n");
+            out.push(single(format!("amb-struct-cycle-{rot}"), "amb", "amb.pn", s));
+        }
+        // many undefined names, duplicate declarations of several kinds, many unused / unresolved labels
+        let mut s = String::from("const K: i32 = 1;\nconst K: i32 = 2;\nstruct P\n{\n\tx: i32,\n}\nstruct P\n{\n\ty: i32,\n}\nfn f()\n{\n}\nfn f()\n{\n}\n");
+        s.push_str("fn main() -> i32\n{\n\tvar a: i32 = u1 + u2 + u3 + u4;\n\tvar a: i32 = 2;\n\tgoto l1;\n\tgoto l2;\n\tgoto l3;\n\treturn: a\n}\n");
+        out.push(single("amb-many-names".to_string(), "amb", "amb.pn", s));
+        out
+    }
+
     /// special inputs for locations: CRLF, multi-byte characters before the error, error at end of file
     pub fn location_specials(&self) -> Vec<Value> {
         let mut out = Vec::new();
@@ -819,7 +944,7 @@ impl<'a> Gen<'a> {
 }
 
 #[allow(clippy::too_many_arguments)]
-pub fn generate(root: &Path, seed: u64, n_mut: usize, n_soup: usize, n_nest: usize, n_fault: usize, n_multi: usize, n_line: usize, n_struct: usize) -> Vec<Value> {
+pub fn generate(root: &Path, seed: u64, n_mut: usize, n_soup: usize, n_nest: usize, n_fault: usize, n_multi: usize, n_line: usize, n_struct: usize, extra: usize) -> Vec<Value> {
     let corpus = Corpus::load(root);
     let g = Gen { corpus: &corpus, seed };
     let mut out = g.corpus_cases();
@@ -831,5 +956,10 @@ pub fn generate(root: &Path, seed: u64, n_mut: usize, n_soup: usize, n_nest: usi
     out.extend((0..n_multi).map(|i| g.multi(i)));
     out.extend((0..n_line).map(|i| g.line_mutant(i)));
     out.extend((0..n_struct).map(|i| g.structs(i)));
+    // families added by the dimension audit (after all older ones: ids and random streams of those stay what they were)
+    if extra > 0 {
+        out.extend(g.location_variants());
+        out.extend(g.repeated_and_ambiguous());
+    }
     out
 }
